@@ -3,8 +3,8 @@
 CONSTANTS
   Tier = "thorough"
   Part = "minors"
-  LeadW = 20
-  WinW = 12
+  LeadW = 24
+  WinW = 16
   FullMaxK = 3
   PowMaxK = 3
   CaseNd = {1, 2, 3, 12}
